@@ -28,8 +28,6 @@ def plan(pid, tier, seed):
     # random leftmost derivations of the shipped grammar (TLC simulation of the derivation machine)
     gen = [{"module": "JavaDerive", "cfg": "JavaDerive_Sim.cfg", "simulate": 2500 if quick else 12000, "depth": 4000,
             "workers": 1 if quick else 8, "extra_files": [grammar_module()], "deadlock": False, "timeout": 3000}]
-    if os.environ.get("VERIF_C09_DERIVE", "0") != "1":   # TRANSITIONAL: off until the crash sites it found are repaired in /repo
-        gen = []
     return {"harness": "javashapes", "mc": mc, "gen": gen, "rand": 150 if quick else 3000, "trace": TRACE}
 
 
